@@ -84,7 +84,7 @@ Proof. exact rng_seeded. Qed.
 Print Assumptions C10_rng_seeded.
 Theorem C10_rng_nonpositive_seed_ignored : forall s rv, (s <= 0)%Z -> rstep rv (RSeed s) = rv.
 Proof. exact rng_nonpositive_seed_ignored. Qed.
-Theorem C10_rng_no_wrap_after_first_draw : forall rv, (0 <= rv < congruent)%Z -> draw rv = ((factor * rv) mod congruent)%Z.
+Theorem C10_rng_no_wrap_after_first_draw : forall rv, (0 <= rv < congruent)%Z -> draw rv = nz ((factor * rv) mod congruent)%Z.
 Proof. exact draw_no_wrap. Qed.
 Example C10_rng_nonvacuous :
   rrun initial_value [RDraw; RSeed 0; RDraw; RSeed 2000000000; RDraw; RDraw] =
